@@ -5,11 +5,12 @@ Property theorems; helper lemmas are in RigModel/Lemmas/C10*.lean.
 import RigModel.Model.C10
 import RigModel.Lemmas.C10Bits
 import RigModel.Lemmas.C10Trees
+import RigModel.Lemmas.C10Load
 set_option linter.unusedSimpArgs false
 set_option linter.unusedVariables false
 
 namespace Rig.C10
-open Rig.Gen.Router
+open Rig.Gen.Router Rig.Gen.Scp
 
 /-- the generated enumeration data is what the model assumes: 24 routes 0..23, links 0..5 have
 opposite `(r + 3) % 6`, every other route has none, cores are 6 + n, the record is `<2H 3I`,
@@ -129,5 +130,165 @@ theorem rte_roundtrip (i : Nat) (e : Entry) (hi : i < 65536) (hr : ∀ r ∈ e.r
 
 example : ∃ e : Entry, (∀ r ∈ e.route, r < 24) ∧ e.route.length = 24 ∧ e.key < 4294967296 ∧ e.mask < 4294967296 :=
   ⟨{ route := List.range 24, key := 4294967295, mask := 4294967295, sources := [] }, by simp, by simp, by simp, by simp⟩
+
+/-! ## loading and reading back, against the router specification
+
+`pol` is the machine's allocation policy (any function answering 0 or the first row of a block of
+free rows - `PolValid`), `s` any chip state.  Hypotheses, all documented facts of a real machine:
+`scp_data_length > 0`; app id below 256; `sv.sdram_sys` holds the staging buffer address `buf`;
+the staging buffer does not overlap the router copy; entries have routes below 24 and 32-bit key
+and mask. -/
+
+/-- **Allocation failure.** If the machine answers 0 to `alloc_rtr`, `load_routing_table_entries`
+raises `SpiNNakerRouterError(count, x, y)`, the allocation request is the only command sent (no
+write, no load) and the chip - router and memory - is unchanged.  For every policy and state. -/
+theorem load_alloc_failure {α : Type} (pol : Pol) (s : Chip) (scpLen x y app : Nat) (entries : List Entry)
+    (k : Prog α) (ha : app < 256) (h0 : pol s.rows app entries.length = 0) :
+    run pol (loadEntries scpLen entries x y app k) s =
+      (s, .error (.routerError entries.length x y), [allocReq x y app entries.length]) ∧
+    LoadSpec s.rows s.rows entries app 0 true false := by
+  refine ⟨?_, by simp [LoadSpec]⟩
+  simp [loadEntries, run, step_alloc pol s x y app _ ha, h0]
+
+/-- **Load is exact.** If the machine answers a base `b ≠ 0`, the call returns normally, sends
+exactly: the allocation, the read of `sv.sdram_sys`, the write commands of the packed table to the
+staging buffer and one load command `(count << 16 | app << 8 | load, buf, b)`; afterwards rows
+`b .. b+n-1` hold exactly the given entries in order (key, mask, exactly the given route bits,
+the app id) and belong to the application, and every other row is unchanged. -/
+theorem load_exact (pol : Pol) (s : Chip) (scpLen x y app buf : Nat) (entries : List Entry)
+    (hpol : PolValid pol) (hb : 0 < scpLen) (ha : app < 256)
+    (hbase : pol s.rows app entries.length ≠ 0) (hr : ∀ e ∈ entries, e.InRange)
+    (hsv : SvWord s svSdramSys buf)
+    (hdis : buf + 16 * entries.length ≤ s.copyBase ∨ s.copyBase + 16 * rtrEntries ≤ buf) :
+    (run pol (loadEntries scpLen entries x y app (.ret ())) s).2.1 = .ok () ∧
+    (run pol (loadEntries scpLen entries x y app (.ret ())) s).2.2 =
+      allocReq x y app entries.length ::
+        ((Rig.C07.read scpLen (svBase + svSdramSys) 4).map (readReq x y 0) ++
+         ((Rig.C07.write scpLen buf (recordsFrom 0 entries)).map (writeReq x y 0) ++
+          [loadReq x y app entries.length buf (pol s.rows app entries.length)])) ∧
+    LoadSpec s.rows (run pol (loadEntries scpLen entries x y app (.ret ())) s).1.rows entries app
+      (pol s.rows app entries.length) false true := by
+  have hfree : BlockFree s.rows (pol s.rows app entries.length) entries.length := by
+    rcases hpol s.rows app entries.length with h | h
+    · exact absurd h hbase
+    · exact h
+  have hlen : entries.length < 65536 := by
+    have := hfree.2.1; simp only [rtrEntries] at this; omega
+  rw [load_run pol s scpLen x y app buf entries (.ret ()) hb ha hbase hlen hr hsv hdis]
+  refine ⟨rfl, rfl, ?_⟩
+  simp only [run, LoadSpec, hbase, if_false, true_and]
+  refine ⟨?_, ?_⟩
+  · intro i hi
+    refine ⟨entries.getD i dfltEntry, by simp [List.getD_eq_getElem?_getD, List.getElem?_eq_getElem hi], ?_, ?_⟩
+    · rw [loaded_rows_in s buf _ app entries i hi]
+      simp only [RowHolds, entOf, true_and]
+      intro b _
+      exact routeWord_testBit _ b
+    · rw [loaded_rows_in s buf _ app entries i hi]
+  · intro j _ hj
+    exact loaded_rows_out s buf _ app entries j hj
+
+/-- **Read-back is exact.** `get_routing_table_entries` returns 1024 items; item `j` is `None`
+exactly when row `j` is unused, otherwise it carries the row's key, mask, app id, core and exactly
+the routes whose bit is set in the row's route word; the chip is unchanged. -/
+theorem readback_exact (pol : Pol) (s : Chip) (scpLen x y : Nat) (hb : 0 < scpLen)
+    (hsv : SvWord s svRtrCopy s.copyBase) (hrows : ∀ j, j < rtrEntries → (s.rows j).Ok) :
+    ∃ t, (run pol (getEntries scpLen x y) s).2.1 = .ok t ∧ ReadbackSpec s.rows t ∧
+      (run pol (getEntries scpLen x y) s).1 = s := by
+  rw [get_run pol s scpLen x y hb hsv hrows]
+  refine ⟨_, rfl, ⟨by simp, ?_⟩, rfl⟩
+  intro j hj
+  exact ⟨decRow (s.rows j), by simp [hj], readsAs_decRow _⟩
+
+/-- **Load then read back.** Reading the router back after a successful load returns, at
+positions `b .. b+n-1`, exactly the given entries (same key, mask, route set, the app id), and at
+every other position what was there before. -/
+theorem load_then_readback (pol : Pol) (s : Chip) (scpLen x y app buf : Nat) (entries : List Entry)
+    (hpol : PolValid pol) (hb : 0 < scpLen) (ha : app < 256)
+    (hbase : pol s.rows app entries.length ≠ 0) (hr : ∀ e ∈ entries, e.InRange)
+    (hsv : SvWord s svSdramSys buf) (hsv2 : SvWord s svRtrCopy s.copyBase)
+    (hdis : buf + 16 * entries.length ≤ s.copyBase ∨ s.copyBase + 16 * rtrEntries ≤ buf)
+    (hdis2 : buf + 16 * entries.length ≤ svBase + svRtrCopy ∨ svBase + svRtrCopy + 4 ≤ buf)
+    (hrows : ∀ j, j < rtrEntries → (s.rows j).Ok) :
+    ∃ t, (run pol (loadEntries scpLen entries x y app (getEntries scpLen x y)) s).2.1 = .ok t ∧
+      t.length = rtrEntries ∧
+      (∀ i, i < entries.length → ∃ e d, entries[i]? = some e ∧
+          t[pol s.rows app entries.length + i]? = some (some d) ∧
+          d.key = e.key ∧ d.mask = e.mask ∧ d.app = app ∧ (∀ r, r ∈ d.routes ↔ r ∈ e.route)) ∧
+      (∀ j, j < rtrEntries →
+          ¬ (pol s.rows app entries.length ≤ j ∧ j < pol s.rows app entries.length + entries.length) →
+          t[j]? = some (decRow (s.rows j))) := by
+  have hfree : BlockFree s.rows (pol s.rows app entries.length) entries.length := by
+    rcases hpol s.rows app entries.length with h | h
+    · exact absurd h hbase
+    · exact h
+  have hlen : entries.length < 65536 := by
+    have := hfree.2.1; simp only [rtrEntries] at this; omega
+  have hin : ∀ i, i < entries.length → (entries.getD i dfltEntry).InRange := by
+    intro i hi
+    apply hr
+    simp [List.getD_eq_getElem?_getD, List.getElem?_eq_getElem hi]
+  rw [load_run pol s scpLen x y app buf entries _ hb ha hbase hlen hr hsv hdis]
+  have hsv3 : SvWord (loadedChip s buf (pol s.rows app entries.length) app entries) svRtrCopy
+      (loadedChip s buf (pol s.rows app entries.length) app entries).copyBase := by
+    refine ⟨hsv2.1, hsv2.2.1, ?_⟩
+    show List.map _ _ = le32 s.copyBase
+    rw [← hsv2.2.2]
+    apply List.map_congr_left
+    intro i hi
+    have hi' : i < 4 := by simpa using hi
+    simp only [loadedChip, Rig.C07.writeMem, recordsFrom_length]
+    rw [if_neg (by rcases hdis2 with h | h <;> omega)]
+  have hrows3 : ∀ j, j < rtrEntries → ((loadedChip s buf (pol s.rows app entries.length) app entries).rows j).Ok := by
+    intro j hj
+    by_cases hjb : pol s.rows app entries.length ≤ j ∧ j < pol s.rows app entries.length + entries.length
+    · have e : j = pol s.rows app entries.length + (j - pol s.rows app entries.length) := by omega
+      rw [e, loaded_rows_in s buf _ app entries _ (by omega)]
+      have := hin (j - pol s.rows app entries.length) (by omega)
+      simp only [Row.Ok, entOf]
+      exact ⟨routeWord_lt _ 24 this.1, this.2.1, this.2.2, ha, by omega⟩
+    · rw [loaded_rows_out s buf _ app entries j hjb]
+      exact hrows j hj
+  rw [get_run pol _ scpLen x y hb hsv3 hrows3]
+  refine ⟨_, rfl, by simp, ?_, ?_⟩
+  · intro i hi
+    have hbi : pol s.rows app entries.length + i < rtrEntries := by
+      have := hfree.2.1; omega
+    refine ⟨entries.getD i dfltEntry,
+      { routes := routesValues.filter (fun b => (routeWord (entries.getD i dfltEntry).route >>> b) &&& 1 = 1),
+        key := (entries.getD i dfltEntry).key, mask := (entries.getD i dfltEntry).mask, app := app, core := 0 },
+      by simp [List.getD_eq_getElem?_getD, List.getElem?_eq_getElem hi], ?_, ?_⟩
+    · simp only [List.getElem?_map, List.getElem?_range hbi, Option.map_some]
+      rw [loaded_rows_in s buf _ app entries i hi]
+      simp only [decRow, entOf]
+      rfl
+    · refine ⟨rfl, rfl, rfl, ?_⟩
+      intro r
+      rw [mem_routes_filter, routeWord_testBit]
+      exact ⟨fun h => h.2, fun h => ⟨(hin i hi).1 r h, h⟩⟩
+  · intro j hj hjb
+    simp only [List.getElem?_map, List.getElem?_range hj, Option.map_some]
+    rw [loaded_rows_out s buf _ app entries j hjb]
+
+/-- non-vacuity of the machine hypotheses: a first-fit policy is valid, and an empty router with
+`sv` pointers set up satisfies the state hypotheses -/
+def firstFit : Pol := fun rows _ n =>
+  match (List.range rtrEntries).find? (fun b => decide (BlockFree rows b n)) with
+  | some b => b
+  | none => 0
+example : PolValid firstFit := by
+  intro rows app n
+  unfold firstFit
+  cases h : (List.range rtrEntries).find? (fun b => decide (BlockFree rows b n)) with
+  | none => exact Or.inl rfl
+  | some b => exact Or.inr (by simpa using List.find?_some h)
+def exChip : Chip :=
+  { mem := Rig.C07.writeMem (Rig.C07.writeMem (fun _ => 0) (svBase + svSdramSys) (le32 0x60001000))
+      (svBase + svRtrCopy) (le32 0x70000000),
+    rows := fun _ => default, copyBase := 0x70000000 }
+example : SvWord exChip svSdramSys 0x60001000 ∧ SvWord exChip svRtrCopy exChip.copyBase ∧
+    firstFit exChip.rows 7 3 = 1 ∧ (∀ j, (exChip.rows j).Ok) := by
+  refine ⟨⟨by decide, by decide +kernel, by decide +kernel⟩, ⟨by decide, by decide +kernel, by decide +kernel⟩,
+    by decide +kernel, fun _ => trivial⟩
 
 end Rig.C10
